@@ -629,7 +629,7 @@ fn run_shard(ctx: &ShardCtx) {
     );
     ctx.run_prop(
         "fault-random",
-        ctx.tier.pick(2_000_000, 12_000_000),
+        ctx.tier.pick(4_000_000, 20_000_000),
         strat,
         |(c, k, (p, og), sfx)| {
             let mut suffix = sfx.clone();
